@@ -8,7 +8,11 @@
 //   - runs core.Scan in portable mode over that tree and records the entry
 //     produced for the link,
 //   - runs core.Transition in portable mode asking it to create the link and
-//     records whether it exists afterwards.
+//     records whether it exists afterwards,
+//   - runs core.Transition in portable mode asking it to create new
+//     directories (one and two levels) that contain the link and records, for
+//     the nested link's own path, whether it exists and whether a problem was
+//     recorded.
 //
 // Every case is emitted with these observations as a Coq term for
 // Harness/SymlinkH.v.
@@ -54,6 +58,7 @@ type obs struct {
 	hasK    bool
 	scan    string // "" = none, else Coq term
 	created string // "" = none, else "true"/"false"
+	nested  string // "" = none, else Coq term NO c1 p1 c2 p2
 }
 
 var errNames = map[string]string{
@@ -278,6 +283,57 @@ func observeBatch(cases []Case, res []obs) {
 				res[i].created = "false"
 			}
 		}
+
+		// 4. ask Transition to create NEW DIRECTORIES that hold the link, one
+		// level (D<leaf>/k) and two levels (E<leaf>/s/k) deep: links that arrive
+		// inside a created directory are subject to the same rule, at their own
+		// depth.
+		var nested []*core.Change
+		for _, i := range idx {
+			path, target := cases[i].Path.Get(), cases[i].Target.Get()
+			dir, leaf := "", path
+			if j := strings.LastIndexByte(path, '/'); j >= 0 {
+				dir, leaf = path[:j+1], path[j+1:]
+			}
+			link := func() *core.Entry {
+				return &core.Entry{Kind: core.EntryKind_SymbolicLink, Target: target}
+			}
+			nested = append(nested,
+				&core.Change{Path: dir + "D" + leaf, New: &core.Entry{Kind: core.EntryKind_Directory,
+					Contents: map[string]*core.Entry{"k": link()}}},
+				&core.Change{Path: dir + "E" + leaf, New: &core.Entry{Kind: core.EntryKind_Directory,
+					Contents: map[string]*core.Entry{"s": {Kind: core.EntryKind_Directory,
+						Contents: map[string]*core.Entry{"k": link()}}}}})
+		}
+		_, problems, _ := core.Transition(context.Background(), root, nested, &core.Cache{},
+			core.SymbolicLinkMode_SymbolicLinkModePortable, 0o600, 0o700, ownership, false, nil)
+		problemAt := map[string]bool{}
+		for _, pr := range problems {
+			problemAt[pr.Path] = true
+		}
+		for k, i := range idx {
+			target := cases[i].Target.Get()
+			l1 := nested[2*k].Path + "/k"
+			l2 := nested[2*k+1].Path + "/s/k"
+			exists := func(rel string) (bool, bool) {
+				p := filepath.Join(root, rel)
+				if t, err := os.Readlink(p); err == nil && t == target {
+					return true, true
+				} else if _, err := os.Lstat(p); err != nil {
+					return false, true
+				}
+				return false, false // something else is there: no observation
+			}
+			c1, ok1 := exists(l1)
+			c2, ok2 := exists(l2)
+			// the directories themselves must have been created, otherwise the
+			// nested links were never attempted
+			_, e1 := os.Lstat(filepath.Join(root, nested[2*k].Path))
+			_, e2 := os.Lstat(filepath.Join(root, nested[2*k+1].Path, "s"))
+			if ok1 && ok2 && e1 == nil && e2 == nil {
+				res[i].nested = fmt.Sprintf("(NO %v %v %v %v)", c1, problemAt[l1], c2, problemAt[l2])
+			}
+		}
 	}
 }
 
@@ -303,7 +359,11 @@ func render(c Case, o obs) hx.Case {
 	if o.created != "" {
 		created = "(Some " + o.created + ")"
 	}
-	coq := fmt.Sprintf("C %s %s %s %s %s %s", bstr.B(path), bstr.B(target), o.out, kernel, scan, created)
+	nested := "NN"
+	if o.nested != "" {
+		nested = o.nested
+	}
+	coq := fmt.Sprintf("C %s %s %s %s %s %s %s", bstr.B(path), bstr.B(target), o.out, kernel, scan, created, nested)
 	if c.Tokens != "" && exhaustiveShape(c) {
 		tk := "tz"
 		for i := len(c.Tokens) - 1; i >= 0; i-- {
@@ -322,7 +382,7 @@ func render(c Case, o obs) hx.Case {
 				kernel = fmt.Sprintf("(KN %d %d)", len(baseNames)-common, len(o.kernel)-common)
 			}
 		}
-		coq = fmt.Sprintf("X %d %s %s %s %s %s", strings.Count(path, "/"), tk, o.out, kernel, scan, created)
+		coq = fmt.Sprintf("X %d %s %s %s %s %s %s", strings.Count(path, "/"), tk, o.out, kernel, scan, created, nested)
 	}
 	depth := strings.Count(path, "/")
 	comps := strings.Split(target, "/")
@@ -355,6 +415,9 @@ func render(c Case, o obs) hx.Case {
 	}
 	if o.created != "" {
 		tags = append(tags, "transition-observed")
+	}
+	if o.nested != "" {
+		tags = append(tags, "nested-directory-transition-observed")
 	}
 	return hx.Case{Coq: coq, Replay: c, Nontrivial: hasDotDot || !o.accept, Tags: tags}
 }
@@ -407,7 +470,7 @@ func main() {
 	}
 	header := "From Coq Require Import List String.\nFrom Coq.Strings Require Import Byte.\nImport ListNotations.\nOpen Scope string_scope.\nFrom Mv Require Import Common.Bytes Common.Str Model.Symlink Harness.SymlinkH."
 	w := hx.NewWriter(cfg, header, "scase", failFn, 1500)
-	w.Rule = "a case = (link path, target, result of the real normalizeSymbolicLinkAndEnsurePortable, kernel resolution of the link created on disk, entry produced by core.Scan in portable mode, whether core.Transition in portable mode created the link); distinct = distinct Coq terms; non-trivial = the target contains a '..' component or is rejected"
+	w.Rule = "a case = (link path, target, result of the real normalizeSymbolicLinkAndEnsurePortable, kernel resolution of the link created on disk, entry produced by core.Scan in portable mode, whether core.Transition in portable mode created the link, and whether it created the link / recorded a problem when the link arrives inside a new directory one and two levels deep); distinct = distinct Coq terms; non-trivial = the target contains a '..' component or is rejected"
 	w.Extra["model_variant"] = map[bool]string{false: "unfixed (code as in the repository)", true: "fixed (proposed repair)"}[*fixed]
 
 	var pending []Case
